@@ -889,4 +889,71 @@ example :
       = chars! "https://ex.invalid/a/module/geom.html" := by
   decide
 
+/-! ## Round 6: `Project.find` among the imported objects -/
+
+/-- **Table fact (probed on every run): `Project.find` passes over imported type-bound procedures** when it looks
+    for a bare name - they share `extProcedures` with the module procedures. -/
+theorem find_skips_bindings : chars! "boundprocedure" ∈ Gen.findSkips := by decide
+
+/-- **A bare (or kind-qualified) `[[name]]` never ends at an object of a class `Project.find` skips** - with the
+    table fact above: never at a type-bound procedure of A, however the description orders its entities (bindings
+    are reached through their type: `child_reference_reaches_entity`).  For every set of loaded objects. -/
+theorem bare_name_never_reaches_a_skipped_class (skip : List Str) (os : List XObj) (name : Str) (kind : Option Str)
+    (o : XObj) (h : findLoadedWith skip os name kind = .ok (some o)) : skip.contains (xCls o) = false := by
+  cases kind with
+  | none => exact xFindTop_not_skipped skip name _ o (by simpa [findLoadedWith] using h)
+  | some k =>
+    simp only [findLoadedWith] at h
+    cases hl : Gen.linkTypes.lookup (lower k) with
+    | none => simp [hl] at h
+    | some c => simp only [hl] at h; exact xFindTop_not_skipped skip name _ o h
+
+theorem bare_name_never_reaches_a_binding (os : List XObj) (name : Str) (kind : Option Str) (o : XObj)
+    (h : findLoaded os name kind = .ok (some o)) : xCls o ≠ chars! "boundprocedure" := by
+  have h1 := bare_name_never_reaches_a_skipped_class Gen.findSkips os name kind o h
+  intro hc
+  rw [hc] at h1
+  have h2 : Gen.findSkips.contains (chars! "boundprocedure") = true := by decide
+  rw [h2] at h1
+  cases h1
+
+/-- **Why the table fact is load-bearing** (witness, `decide`): a type `t` with a binding `s`, listed before the
+    module subroutine `s`: without the skip `[[s]]` ends at the binding (`type/t.html#boundprocedure-s`), with the
+    probed table at the subroutine's page. -/
+theorem binding_found_by_bare_name_witness :
+    let bnd : XObj := .node (chars! "boundprocedure") (.str (chars! "s")) (.str (chars! "/A/doc/type/t.html#boundprocedure-s"))
+      (some (.str (chars! "t"))) none []
+    let typ : XObj := .node (chars! "type") (.str (chars! "t")) (.str (chars! "/A/doc/type/t.html")) (some (.str (chars! "m"))) none
+      [(chars! "boundprocs", .list [bnd])]
+    let sub : XObj := .node (chars! "subroutine") (.str (chars! "s")) (.str (chars! "/A/doc/proc/s.html")) (some (.str (chars! "m"))) none []
+    let m : XObj := .node (chars! "module") (.str (chars! "m")) (.str (chars! "/A/doc/module/m.html")) none none
+      [(chars! "types", .list [typ]), (chars! "subroutines", .list [sub])]
+    outcome (findLoadedWith [] [m] (chars! "s") none)
+      = [chars! "boundprocedure", chars! "s", chars! "/A/doc/type/t.html#boundprocedure-s"] ∧
+    outcome (findLoaded [m] (chars! "S") none) = [chars! "subroutine", chars! "s", chars! "/A/doc/proc/s.html"] ∧
+    outcome (xConvertLink [m] (chars! "t") none (some (chars! "s")) none)
+      = [chars! "boundprocedure", chars! "s", chars! "/A/doc/type/t.html#boundprocedure-s"] ∧
+    outcome (xConvertLink [m] (chars! "m") none (some (chars! "nosuch")) none)
+      = [chars! "module", chars! "m", chars! "/A/doc/module/m.html"] := by
+  decide
+
+/-- **`[[module:entity]]` through `Project.find` / `convert_link`.**  When the search for the parent's name among the
+    loaded objects ends at the import of an exported entity `m` (for a module of A and a B without a module of that
+    name it does: `reference_to_any_exported_module_resolves`), the whole reference resolves - without the fall-back
+    to the parent's page - to the import of an entity that `m` lists under that name, at A's location / `get_url`. -/
+theorem reference_through_project_find_reaches_entity (b : Base) (p : Option Json) (os : List XObj)
+    (pname : Str) (pkind : Option Str) (name : Str) (url : Option Str) (obj : Str)
+    (pt : Option Str) (attrs : List (Str × Attr)) (a : Str) (xs : List Ent)
+    (htop : findLoaded os pname pkind = .ok (some (specE b p (.node name url obj pt attrs))))
+    (ha : a ∈ Gen.childrenOrder) (hat : a ∈ Gen.attributes) (hl : attrs.lookup a = some (.list xs))
+    (en : Str) (eu : Option Str) (eo : Str) (ept : Option Str) (eats : List (Str × Attr))
+    (he : Ent.node en eu eo ept eats ∈ xs) :
+    ∃ cn cu co cpt cats, lower en = lower cn ∧
+      xConvertLink os pname pkind (some en) none = .ok (some (specE b (some (.str name)) (.node cn cu co cpt cats))) ∧
+      xUrl (specE b (some (.str name)) (.node cn cu co cpt cats)) = some (.str (rebase b (urlText cu))) := by
+  obtain ⟨_, _, cn, cu, co, cpt, cats, _, _, _, _, h5, h6, h7⟩ :=
+    child_reference_reaches_entity b p name url obj pt attrs a xs ha hat hl en eu eo ept eats he
+  refine ⟨cn, cu, co, cpt, cats, h5, ?_, h7⟩
+  simp [xConvertLink, xProjectFind, htop, viaParent, h6]
+
 end Ford.C16
